@@ -208,6 +208,7 @@ type RunOut struct {
 	ParseErrors []string    `json:"parse_errors"`
 	ModelErrors [][]any     `json:"model_errors"` // [line, column, msg]
 	Panic       string      `json:"panic,omitempty"`
+	ModelDigest string      `json:"model_digest,omitempty"` // position-free, map-order-free print of the visited model
 	Stdout      string      `json:"stdout,omitempty"`
 	Gens        []GenResult `json:"gens,omitempty"`
 	Format      string      `json:"format"`
@@ -327,11 +328,99 @@ func runGens(text string, order []string, content bool) (gr GenResult) {
 	return
 }
 
+// modelPrint writes a canonical print of the model: source positions (Line, Column) are left out, maps are printed
+// in key order, a pointer met again is printed as a back reference.  Two texts with the same print hand the
+// generators the same model, so their outputs have the same distribution whatever the map iteration orders.
+func modelPrint(b *strings.Builder, v reflect.Value, seen map[uintptr]int) {
+	switch v.Kind() {
+	case reflect.Ptr:
+		if v.IsNil() {
+			b.WriteString("nil")
+			return
+		}
+		if n, ok := seen[v.Pointer()]; ok {
+			fmt.Fprintf(b, "^%d", n)
+			return
+		}
+		seen[v.Pointer()] = len(seen)
+		fmt.Fprintf(b, "&%d", len(seen)-1)
+		modelPrint(b, v.Elem(), seen)
+	case reflect.Interface:
+		if v.IsNil() {
+			b.WriteString("nil")
+			return
+		}
+		b.WriteString(v.Elem().Type().String())
+		modelPrint(b, v.Elem(), seen)
+	case reflect.Struct:
+		b.WriteString("{")
+		for i := 0; i < v.NumField(); i++ {
+			n := v.Type().Field(i).Name
+			if n == "Line" || n == "Column" {
+				continue
+			}
+			b.WriteString(n + ":")
+			modelPrint(b, v.Field(i), seen)
+			b.WriteString(";")
+		}
+		b.WriteString("}")
+	case reflect.Slice, reflect.Array:
+		b.WriteString("[")
+		for i := 0; i < v.Len(); i++ {
+			modelPrint(b, v.Index(i), seen)
+			b.WriteString(",")
+		}
+		b.WriteString("]")
+	case reflect.Map:
+		keys := v.MapKeys()
+		sort.Slice(keys, func(i, j int) bool { return fmt.Sprint(keys[i]) < fmt.Sprint(keys[j]) })
+		b.WriteString("map[")
+		for _, k := range keys {
+			fmt.Fprintf(b, "%v=", k)
+			modelPrint(b, v.MapIndex(k), seen)
+			b.WriteString(",")
+		}
+		b.WriteString("]")
+	case reflect.String:
+		fmt.Fprintf(b, "%q", v.String())
+	case reflect.Bool:
+		fmt.Fprintf(b, "%v", v.Bool())
+	case reflect.Int, reflect.Int8, reflect.Int16, reflect.Int32, reflect.Int64:
+		fmt.Fprintf(b, "%d", v.Int())
+	case reflect.Uint, reflect.Uint8, reflect.Uint16, reflect.Uint32, reflect.Uint64:
+		fmt.Fprintf(b, "%d", v.Uint())
+	default:
+		fmt.Fprintf(b, "<%s>", v.Kind())
+	}
+}
+
 func runOne(in *RunIn, text string) (out RunOut) {
 	if in.Visit {
 		m, perrs, pan := parseModel(text)
 		out.ParseErrors = perrs
 		out.Panic = pan
+		if m != nil && pan == "" {
+			func() {
+				defer func() {
+					if r := recover(); r != nil {
+						out.ModelDigest = ""
+					}
+				}()
+				var b strings.Builder
+				mv := reflect.ValueOf(m).Elem()
+				seen := map[uintptr]int{}
+				for i := 0; i < mv.NumField(); i++ {
+					if mv.Type().Field(i).Name == "SyntaxErrors" || !mv.Type().Field(i).IsExported() {
+						continue
+					}
+					b.WriteString(mv.Type().Field(i).Name + ":")
+					modelPrint(&b, mv.Field(i), seen)
+					b.WriteString("\n")
+				}
+				h := sha1.Sum([]byte(b.String()))
+				out.ModelDigest = hex.EncodeToString(h[:10])
+			}()
+		}
 		if m != nil {
 			for _, e := range m.SyntaxErrors {
 				out.ModelErrors = append(out.ModelErrors, []any{e.Line, e.Column, e.Msg})
